@@ -51,6 +51,13 @@ pub fn setup(t: &mut Tape, mode: Mode) -> TrafficRun {
         peers.insert(a, (kind, delay));
     }
     let targets: Vec<u8> = peers.keys().copied().collect();
+    // a few passive stations inside the masters' GAPs as well (they answer the FDL's GAP polls)
+    for _ in 0..t.below(4) {
+        let a = t.below(u64::from(cfg.hsa)) as u8;
+        if !masters.contains(&a) && !peers.contains_key(&a) {
+            peers.insert(a, (PeerKind::StatusOnly, 11 + t.below(max_delay - 10)));
+        }
+    }
     let mut sim = Sim::new(cfg.clone(), 1);
     sim.record_polls = true;
     let log: Log = Rc::new(RefCell::new(vec![]));
@@ -122,6 +129,32 @@ pub fn receipts(r: &TrafficRun) -> Vec<Vec<i64>> {
     out
 }
 
+/// Within a token visit every message cycle after the first starts before (previous token receipt +
+/// TTR); a visit whose first cycle starts at or after that deadline has exactly one cycle.
+fn hold_time_clause(r: &TrafficRun) -> CaseResult {
+    let rec = receipts(r);
+    let log = r.log.borrow();
+    let ttr_us = r.cfg.baud.bits_to_time(r.cfg.ttr_bits).total_micros() as i64 + 1;
+    for x in 0..r.sim.nodes.len() {
+        let addr = r.sim.nodes[x].addr;
+        let sends: Vec<i64> = log.iter().filter_map(|c| match c { Cb::Tx { t, station, sent: Some(_), .. } if *station == x => Some(*t), _ => None }).collect();
+        for k in 1..rec[x].len() {
+            let (start, end) = (rec[x][k], rec[x].get(k + 1).copied().unwrap_or(i64::MAX));
+            if start == rec[x][k - 1] {
+                continue;
+            }
+            let deadline = rec[x][k - 1] + ttr_us;
+            let in_visit: Vec<i64> = sends.iter().copied().filter(|t| *t >= start && *t < end).collect();
+            for (j, t) in in_visit.iter().enumerate() {
+                if j >= 1 && *t >= deadline {
+                    fail!("hold-time", "station #{addr}: message cycle #{} of a token visit started at {} us, but the hold time (previous token receipt {} us + TTR {} us) was over at {} us", j + 1, t, rec[x][k - 1], ttr_us, deadline);
+                }
+            }
+        }
+    }
+    Ok(())
+}
+
 fn c13_oracle(r: &TrafficRun, obs: &mut Obs) -> CaseResult {
     let rec = receipts(r);
     let log = r.log.borrow();
@@ -185,6 +218,24 @@ fn c13_oracle(r: &TrafficRun, obs: &mut Obs) -> CaseResult {
                     }
                 }
             }
+            // 'one bounded message cycle and GAP poll per station': in the stable ring a station sends
+            // at most one FDL status request of its own (no live list runs here) per token visit
+            {
+                let b = r.sim.bus.0.borrow();
+                for x in 0..n {
+                    let mut polls_in_visit = 0;
+                    for rec in b.trace.iter().filter(|rec| rec.sender == x && rec.start_ns > (c + 2 * rot + ttr_us) * 1000) {
+                        match rc::decode_one(&rec.bytes) {
+                            Some(RefFrame::Token { .. }) => polls_in_visit = 0,
+                            Some(RefFrame::Data { fc: 0x49, dsap: None, ssap: None, da, .. }) => {
+                                polls_in_visit += 1;
+                                ensure!(polls_in_visit <= 1, "gap-polls-per-visit", "station #{} sent {} GAP polls (the last to #{da}) during one token visit in the stable ring at {} ns", r.sim.nodes[x].addr, polls_in_visit, rec.start_ns);
+                            }
+                            _ => {}
+                        }
+                    }
+                }
+            }
             obs.label("rotation-bound-judged");
         } else {
             obs.label("late-peer-deadline-rule-only");
@@ -201,15 +252,22 @@ fn c13_oracle(r: &TrafficRun, obs: &mut Obs) -> CaseResult {
     Ok(())
 }
 
-/// Owner of the token at time t_ns according to the trace (address).
-fn owners(r: &TrafficRun) -> Vec<(i64, u8)> {
+/// Token possession of station `x` (address `addr`) according to the trace: (time, has token).
+/// Judged per station, because scripted peers may put token telegrams of their own on the bus
+/// (`TokenReply`): a token telegram addressed to the station - from anybody - may give it the
+/// token (an over-approximation: a first offer by a stranger is not accepted), its own pass takes
+/// it away.
+fn possession(r: &TrafficRun, x: usize, addr: u8) -> Vec<(i64, bool)> {
     let b = r.sim.bus.0.borrow();
     let mut v = vec![];
     for rec in b.trace.iter() {
-        if let Some(RefFrame::Token { da, sa }) = rc::decode_one(&rec.bytes) {
-            // a token to itself makes the sender owner from the start of the transmission
-            let at = if da == sa { rec.start_ns } else { rec.end_ns };
-            v.push((at, da));
+        if let Some(RefFrame::Token { da, sa: _ }) = rc::decode_one(&rec.bytes) {
+            if rec.sender == x {
+                // a token to itself makes the sender owner from the start of the transmission
+                v.push((rec.start_ns, da == addr));
+            } else if da == addr {
+                v.push((rec.end_ns, true));
+            }
         }
     }
     v
@@ -217,13 +275,13 @@ fn owners(r: &TrafficRun) -> Vec<(i64, u8)> {
 
 fn c15_oracle(r: &TrafficRun, obs: &mut Obs) -> CaseResult {
     let log = r.log.borrow();
-    let own = owners(r);
     let n = r.sim.nodes.len();
     let b = r.sim.bus.0.borrow();
     let (mut replies, mut timeouts, mut unanswered_silently, mut declines) = (0u64, 0u64, 0u64, 0u64);
     for x in 0..n {
         let addr = r.sim.nodes[x].addr;
         let napps = r.specs[x].len();
+        let own = possession(r, x, addr);
         let evs: Vec<&Cb> = log.iter().filter(|c| c.station() == x).collect();
         // own transmissions on the trace
         let tx_x: Vec<&crate::simbus::TxRecord> = b.trace.iter().filter(|t| t.sender == x).collect();
@@ -240,8 +298,8 @@ fn c15_oracle(r: &TrafficRun, obs: &mut Obs) -> CaseResult {
                 Cb::Tx { t, app, sent, .. } => {
                     // (a) token owner
                     let i = own.partition_point(|(at, _)| *at <= *t * 1000);
-                    let o = if i > 0 { Some(own[i - 1].1) } else { None };
-                    ensure!(o == Some(addr), "tx-without-token", "application {} of station #{addr} was asked for a telegram at {} us while the token was with {:?}", app, t, o);
+                    let has = i > 0 && own[i - 1].1;
+                    ensure!(has, "tx-without-token", "application {} of station #{addr} was asked for a telegram at {} us, after it had passed the token on and before any token telegram addressed to it", app, t);
                     // (a) no reply outstanding
                     if let Some((oa, oda, ot)) = outstanding {
                         if resolved == 0 {
@@ -268,7 +326,7 @@ fn c15_oracle(r: &TrafficRun, obs: &mut Obs) -> CaseResult {
                     // (e) once every application has declined once in this token visit the token must be
                     // passed on before anybody is asked again
                     let passed_since = tx_x.iter().any(|rec| rec.start_ns > last_cb_t * 1000 && rec.start_ns <= *t * 1000 && rec.bytes.first() == Some(&rc::SD4));
-                    let received_since = own.iter().any(|(at, o)| *o == addr && *at > last_cb_t * 1000 && *at <= *t * 1000);
+                    let received_since = own.iter().any(|(at, has)| *has && *at > last_cb_t * 1000 && *at <= *t * 1000);
                     if passed_since || received_since {
                         declined_in_visit.iter_mut().for_each(|d| *d = false);
                     }
@@ -353,7 +411,11 @@ fn traffic_case(t: &mut Tape, obs: &mut Obs, mode: Mode, window_slots: i64) -> C
     obs.sample(|| json!({"config": r.cfg.describe(), "applications": r.specs.iter().map(|s| s.iter().map(|a| format!("{:?}", a)).collect::<Vec<_>>()).collect::<Vec<_>>(), "peers": r.peers.iter().map(|(a, (k, d))| format!("#{a}: {:?} after {d} bit", k)).collect::<Vec<_>>(), "callbacks": r.log.borrow().len()}));
     match mode {
         Mode::C13 => c13_oracle(&r, obs),
-        Mode::C15 => c15_oracle(&r, obs),
+        Mode::C15 => {
+            // '... or the hold time is over': the per-visit deadline clause (shared with C13)
+            hold_time_clause(&r)?;
+            c15_oracle(&r, obs)
+        }
     }
 }
 
